@@ -47,8 +47,18 @@ def delims_src(src):
 
 
 def linestmt_src(src):
-    # every block tag becomes a line statement; the added newlines are removed from the observation
-    return re.sub(r"\{% (.*?) %\}", lambda m: "\n# " + m.group(1) + "\n", src)
+    """every block tag becomes a line statement.  No text may be added: a block set would capture it and a loop
+    could walk over it.  A line statement swallows its own newline; the newline needed before one that follows an
+    expression is removed by that expression's `-}}`."""
+    out = ""
+    for tok in re.split(r"(\{% .*? %\})", src):
+        if tok.startswith("{% "):
+            if out and not out.endswith("\n"):
+                out += "\n"
+            out += "# " + tok[3:-3] + "\n"
+        else:
+            out += tok.replace(" }}", " -}}")
+    return out
 
 
 class _DictBC:
